@@ -1571,10 +1571,19 @@ class TLSConnection(TLSRecordLayer):
                             "when client does not support it."):
                         yield result
 
-                if not cert_ext.delegated_credential.verify(
+                try:
+                    dc_valid = cert_ext.delegated_credential.verify(
                         cert_entry,
                         clientHello,
-                        certificate_verify):
+                        certificate_verify)
+                except TLSIllegalParameterException as alert:
+                    for result in self._sendError(
+                            AlertDescription.illegal_parameter,
+                            str(alert)):
+                        yield result
+                except TLSDecryptionFailed:
+                    dc_valid = False
+                if not dc_valid:
                     for result in self._sendError(
                             AlertDescription.decrypt_error,
                             "server Delegated Credential verification "
